@@ -199,6 +199,11 @@ SendFromWriteQ(c) ==
 
 (* doWait took the ctx.Done() branch: cancelCall + cancelCallImpl.  The     *)
 (* cancel packet is not sent when the deadline is observed as passed.      *)
+(* DrainOnCancel: the response may have been delivered in the same instant *)
+(* (slot full, st = "none"); doWait then drains the result channel         *)
+(* (slot' = Empty).  The call context and its channel are pooled and       *)
+(* reused by later calls of the client, so a result left in the slot would *)
+(* be returned by another call (OwnOutcome / SlotOK).                      *)
 CancelCall(id) ==
   LET c == OwnerOf(id)
       wasSent == call[id].st = "sent"
